@@ -86,7 +86,9 @@ fn main() {
             }
         }
         specs.extend(magic);
-        let extras = vmodel::emit::c20_extras(specs.len() + 1000, vmodel::gen::HOSTILE);
+        let mut extras = vmodel::emit::c20_extras(specs.len() + 1000, vmodel::gen::HOSTILE);
+        let first = extras.iter().map(|e| e.0).max().unwrap_or(0) + 1;
+        extras.extend(vmodel::emit::c20_generics(&mut d, first, (n / 3).max(40)));
         let (src, ranges) = vmodel::emit::emit_c20_source(&specs, &extras);
         write_if_changed(&dir.join("Cargo.toml"), &vmodel::emit::cargo_toml_c20(&name));
         write_if_changed(&dir.join("src/main.rs"), &src);
